@@ -187,12 +187,17 @@ func (c *Check) freshDecodeTargets(rule string) {
 						return true
 					}
 					for _, a := range s.Args {
-						u, ok := ast.Unparen(a).(*ast.UnaryExpr)
-						if !ok || u.Op != token.AND {
-							continue
+						var id *ast.Ident
+						viaPointer := false
+						if u, ok := ast.Unparen(a).(*ast.UnaryExpr); ok && u.Op == token.AND {
+							id, _ = ast.Unparen(u.X).(*ast.Ident)
+						} else if pid, ok := ast.Unparen(a).(*ast.Ident); ok {
+							// a pointer variable handed to the decoder: the record it points at is the target
+							if pt, isPtr := types.Unalias(info.TypeOf(pid)).(*types.Pointer); isPtr && namedStruct(pt.Elem()) != "" {
+								id, viaPointer = pid, true
+							}
 						}
-						id, ok := ast.Unparen(u.X).(*ast.Ident)
-						if !ok {
+						if id == nil {
 							continue
 						}
 						v, ok := info.Uses[id].(*types.Var)
@@ -202,7 +207,30 @@ func (c *Check) freshDecodeTargets(rule string) {
 						nLoop++
 						inner := loops[len(loops)-1]
 						fresh := v.Pos() >= inner.Pos() && v.Pos() <= inner.End()
-						if !fresh {
+						if !fresh && viaPointer {
+							// or pointed at a new record earlier in the same iteration
+							ast.Inspect(inner, func(y ast.Node) bool {
+								if y == nil || y.Pos() >= s.Pos() {
+									return y == nil || y.Pos() < s.Pos()
+								}
+								if z, ok := y.(*ast.AssignStmt); ok && len(z.Lhs) == 1 && len(z.Rhs) == 1 {
+									if lid, ok := z.Lhs[0].(*ast.Ident); ok && info.Uses[lid] == v {
+										switch r := ast.Unparen(z.Rhs[0]).(type) {
+										case *ast.CallExpr:
+											if fid, ok := r.Fun.(*ast.Ident); ok && fid.Name == "new" {
+												fresh = true
+											}
+										case *ast.UnaryExpr:
+											if _, isLit := ast.Unparen(r.X).(*ast.CompositeLit); isLit && r.Op == token.AND {
+												fresh = true
+											}
+										}
+									}
+								}
+								return true
+							})
+						}
+						if !fresh && !viaPointer {
 							// or reset to its zero value earlier in the same iteration
 							ast.Inspect(inner, func(y ast.Node) bool {
 								if y == nil || y.Pos() >= s.Pos() {
